@@ -190,12 +190,12 @@ func (e *Engine) callFunction(st *State, fn *ssa.Function, args []Value, binding
 		return r, out
 	}
 	// 2. models substitute dependency functions
-	if m, ok := e.W.Models[name]; ok {
+	if m, ok := e.W.Models[name]; ok && e.modelInScope(name) {
 		e.trust("model " + shortFn(m) + " stands for " + name)
 		fn = m
 		name = shortFn(fn)
 	} else if o := fn.Origin(); o != nil {
-		if m, ok := e.W.Models[shortFn(o)]; ok {
+		if m, ok := e.W.Models[shortFn(o)]; ok && e.modelInScope(shortFn(o)) {
 			e.trust("model " + shortFn(m) + " stands for " + shortFn(o))
 			fn = m
 			name = shortFn(fn)
@@ -596,7 +596,7 @@ func (e *Engine) invoke(st *State, recv Value, method *types.Func, args []Value,
 	}
 	// unknown dynamic type: interface contract or model required
 	key := ifaceMethodKey(recv.T, method)
-	if m, ok := e.W.Models[key]; ok {
+	if m, ok := e.W.Models[key]; ok && e.modelInScope(key) {
 		e.trust("interface model " + shortFn(m) + " stands for " + key)
 		return e.callFunction(st, m, append([]Value{recv}, args...), nil, pos)
 	}
@@ -832,4 +832,13 @@ func sigKey(sig *types.Signature) string {
 		sb.WriteString("," + typeKey(sig.Results().At(i).Type()))
 	}
 	return sb.String()
+}
+
+// modelInScope: a model applies to harnesses of the package that declares it.
+func (e *Engine) modelInScope(target string) bool {
+	p := e.harness.Fn.Package()
+	if p == nil && e.harness.Fn.Origin() != nil {
+		p = e.harness.Fn.Origin().Package()
+	}
+	return p == nil || e.W.ModelPkg[target] == "" || e.W.ModelPkg[target] == p.Pkg.Path()
 }
